@@ -9,6 +9,9 @@
   known findings C05-afb/sfb-backward-padded-modes (witnesses below).
 -/
 import WaveletsVerif.Lemmas.Adjoint
+import WaveletsVerif.Lemmas.Circ
+import WaveletsVerif.Properties.C01
+import WaveletsVerif.Properties.C10
 namespace WV.C05
 open Finset WV
 variable {R : Type} [CommRing R]
@@ -160,5 +163,86 @@ example :
     (afb1dOne .symmetric [1,2,3,4] ([1,0,0,0,0,0] : List Int)).map (fun y => getN y 0)
       ≠ (sfb1dCh .symmetric [1,2,3,4] [1,2,3,4] ([1,0,0,0] : List Int) [0,0,0,0]).map
           (fun d => getN (foldCrop .symmetric 6 d) 0) := by decide
+
+
+/-- **AFB1D.backward is the adjoint in periodization mode**, every length `N ≥ 1` (odd included: the gradient of
+the repeated last sample is folded back by `foldCrop`), every even filter length `L ≤ N + N % 2`. -/
+theorem afb_per_adjoint (h0 h1 x g0 g1 : List R) (hL : 2 ≤ h0.length) (hLe : h0.length % 2 = 0)
+    (hh1 : h1.length = h0.length) (hN : 1 ≤ x.length) (hLN : h0.length ≤ x.length + x.length % 2)
+    (hg0 : g0.length = (x.length + x.length % 2) / 2) (hg1 : g1.length = g0.length) :
+    ∃ lo hi d, afb1dOne .periodization h0.reverse x = some lo ∧ afb1dOne .periodization h1.reverse x = some hi ∧
+      sfb1dCh .periodization h0.reverse h1.reverse g0 g1 = some d ∧
+      (∑ k ∈ range g0.length, getN lo k * getN g0 k) + (∑ k ∈ range g1.length, getN hi k * getN g1 k)
+        = ∑ i ∈ range x.length, getN x i * getN (foldCrop .periodization x.length d) i := by
+  set n := (x.length + x.length % 2) / 2 with hn
+  set x' : List R := if x.length % 2 = 1 then x ++ [getN x (x.length - 1)] else x with hx'
+  have hx'len : x'.length = 2 * n := by
+    by_cases hp : x.length % 2 = 1
+    · simp only [hx', hp, if_true, List.length_append, List.length_singleton]; omega
+    · simp only [hx', hp, if_false]; omega
+  have hd : ∀ h : List R, Spec.dwt .periodization h x = Spec.dwt .periodization h x' := by
+    intro h
+    by_cases hp : x.length % 2 = 1
+    · have hodd' : ¬ (x'.length % 2 = 1) := by omega
+      have : x' = x ++ [getN x (x.length - 1)] := by simp only [hx', hp, if_true]
+      simp only [Spec.dwt, hp, hodd', if_true, if_false, ← this]
+    · have : x' = x := by simp only [hx', hp, if_false]
+      rw [this]
+  set y := Spec.idwt .periodization h0.reverse h1.reverse g0 g1 with hy
+  have hylen : y.length = 2 * n := by simp [hy, Spec.idwt, hg0, hn]
+  refine ⟨Spec.dwt .periodization h0 x, Spec.dwt .periodization h1 x, y,
+    C01.afb1dOne_per_eq_dwt_partial_all h0 x hLe hL hN hLN,
+    C01.afb1dOne_per_eq_dwt_partial_all h1 x (by omega) (by omega) hN (by omega),
+    C10.sfb1dCh_per_eq_idwt_partial h0.reverse h1.reverse g0 g1 (by simpa using hL) (by simp [hh1]) (by omega) (by omega)
+      (by simp; omega), ?_⟩
+  have ht := WV.per_synthesis_is_transpose h0 h1 x' g0 g1 n (by omega) hx'len hg0 hL hLe hh1
+  rw [hd h0, hd h1, hg1, hg0]
+  have e1 : ∀ (a b : List R), ∑ k ∈ range n, getN a k * getN b k = ∑ k ∈ range n, getN b k * getN a k := by
+    intro a b; apply Finset.sum_congr rfl; intro k _; ring
+  rw [e1 _ g0, e1 _ g1, ← ht]
+  by_cases hp : x.length % 2 = 1
+  · -- odd: 2n = N+1
+    have hNn : 2 * n = x.length + 1 := by omega
+    have hxe : x' = x ++ [getN x (x.length - 1)] := by simp only [hx', hp, if_true]
+    rw [hNn, Finset.sum_range_succ]
+    have hfc : ∀ i < x.length, getN (foldCrop .periodization x.length y) i
+        = if i + 1 = x.length then getN y i + getN y x.length else getN y i := by
+      intro i hi
+      have hgt : y.length > x.length := by omega
+      simp only [foldCrop, hgt, if_true]
+      unfold getN
+      rw [List.getD_eq_getElem?_getD, List.getElem?_take_of_lt hi, ← List.getD_eq_getElem?_getD]
+      have := getN_tab (n := y.length) (f := fun k => if k + 1 = x.length then getN y k + getN y x.length else getN y k) i
+      unfold getN at this
+      rw [this, if_pos (by omega)]
+    have hxi : ∀ i < x.length, getN x' i = getN x i := by
+      intro i hi
+      rw [hxe]; unfold getN
+      simp [List.getD_eq_getElem?_getD, List.getElem?_append_left hi]
+    have hxl : getN x' x.length = getN x (x.length - 1) := by
+      rw [hxe]; unfold getN
+      simp [List.getD_eq_getElem?_getD]
+    rw [hxl]
+    have hsum : ∑ i ∈ range x.length, getN x i * getN (foldCrop .periodization x.length y) i
+        = ∑ i ∈ range x.length, (getN x' i * getN y i + if i + 1 = x.length then getN x i * getN y x.length else 0) := by
+      apply Finset.sum_congr rfl; intro i hi
+      have hi' : i < x.length := by simpa using hi
+      rw [hfc i hi', hxi i hi']
+      split <;> ring
+    rw [hsum, Finset.sum_add_distrib]
+    congr 1
+    have hm : x.length - 1 ∈ range x.length := by simp; omega
+    rw [Finset.sum_eq_single_of_mem _ hm]
+    · rw [if_pos (by omega)]
+    · intro b _ hb
+      have hb' : b < x.length := by simpa using ‹b ∈ range x.length›
+      rw [if_neg (by omega)]
+  · have hxe : x' = x := by simp only [hx', hp, if_false]
+    have hNn : 2 * n = x.length := by omega
+    rw [hNn, hxe]
+    have hfc : foldCrop .periodization x.length y = y := by
+      have : ¬ (y.length > x.length) := by omega
+      simp only [foldCrop, this, if_false]
+    rw [hfc]
 
 end WV.C05
